@@ -418,9 +418,33 @@ def r3_entry(ctx) -> None:
                construct=lib.short(cs[0], 90) if cs else "def")
 
 
+def r3_lookup(ctx) -> None:
+    """Validation asks `Parameters.has`, filling asks `Parameters.get`: both decide on exact membership in the same mapping."""
+    PRS_ = "glotaran/parameter/parameters.py"
+    has = ctx.fn(PRS_, "Parameters.has")
+    get = ctx.fn(PRS_, "Parameters.get")
+    lp = has.params()[1]
+    rets = lib.nodes(has, ast.Return)
+    ok = len(rets) == 1 and norm(rets[0].value) in (f"{lp} in self._parameters", f"{lp} in self._parameters.keys()")
+    ctx.ob("C20-R3", "Parameters.has/exact-membership", ok, has, rets[0] if rets else has.node,
+           "`has(label)` is exactly `label in self._parameters`: anything more generous (prefixes, groups) makes validation accept a "
+           "reference that `get` cannot resolve", construct=lib.short(rets[0], 110) if rets else "def has")
+    gp = get.params()[1]
+    reads = [n for n in lib.nodes(get, ast.Subscript) if norm(n.value) == "self._parameters" and norm(n.slice) == gp]
+    raises = [r for r in lib.nodes(get, ast.Raise) if "ParameterNotFoundException" in norm(r)]
+    ctx.ob("C20-R3", "Parameters.get/same-mapping", bool(reads) and bool(raises), get, reads[0] if reads else get.node,
+           "`get(label)` reads self._parameters[label] and raises ParameterNotFoundException otherwise")
+    # the validator uses has(), the filler uses get(), with the same label expression
+    ITM_ = "glotaran/model/item.py"
+    gi = ctx.fn(ITM_, "get_item_parameter_issues")
+    uses = [c for c in lib.calls(gi, nested=True) if isinstance(c.func, ast.Attribute) and c.func.attr in ("has", "get") and "parameters" in norm(c.func.value)]
+    ctx.ob("C20-R3", "get_item_parameter_issues/asks-has", bool(uses) and all(c.func.attr == "has" for c in uses), gi, uses[0] if uses else gi.node,
+           "missing parameters are detected with parameters.has(label)")
+
+
 def check(ctx) -> None:
     for g in check.groups:
         g(ctx)
 
 
-check.groups = [r1, r2, r3, r4, r3_entry]
+check.groups = [r1, r2, r3, r4, r3_entry, r3_lookup]
